@@ -97,3 +97,20 @@ Definition tr_set_index {A} (l : list A) (i : Z) (v : A) : result (list A) :=
 
 (** [[x for x in l if p(x)]] *)
 Definition tr_filter {A} (p : A -> bool) (l : list A) : list A := filter p l.
+
+(** [a or d] in value position: [a] if it is truthy, else [d] — for an optional / a plain str or list [a] *)
+Definition tr_opt_or {A} (a : option (list A)) (d : list A) : list A :=
+  match a with Some (x :: v) => x :: v | _ => d end.
+Definition tr_or {A} (a d : list A) : list A := match a with [] => d | _ :: _ => a end.
+
+(** Result of a translated METHOD: the object state reached is returned on normal return and on an exception alike
+    (Python keeps the partial effects of a method that raises). *)
+Inductive mres (A S : Type) :=
+| MOk (a : A) (s : S)
+| MErr (e : err) (s : S).
+Arguments MOk {A S} a s.
+Arguments MErr {A S} e s.
+
+(** a method call on a value that may be None: [None.m()] raises AttributeError (no such kind in [err]: OtherError) *)
+Definition tr_unwrap {A} (o : option A) : result A :=
+  match o with Some a => Ok a | None => Err OtherError end.
